@@ -1,2 +1,4 @@
 //! Reference models.
 pub mod tokenizer;
+pub mod dom;
+pub mod treebuilder;
